@@ -129,7 +129,7 @@ int (*g_quiesce_hook)(void);
 extern int g_preempt_on;
 extern int64_t g_preempt_mean;
 
-static int quiesce_handler(void)
+int quiesce_handler(void)
 {
 	if (g_quiesce_hook && g_quiesce_hook()) return 1;
 	if (!g_sim.quiesced) {
